@@ -23,6 +23,8 @@
   NOT modelled: replay_line / rewind_line / lines_reused, the per-buffer mutex, cbuf_destroy.
 -/
 import PdshVerif.Cbuf.PairRefine
+import PdshVerif.Cbuf.Lin
+import PdshVerif.Cbuf.Api
 
 namespace PdshVerif.C13
 open PdshVerif.Cbuf
@@ -214,7 +216,7 @@ theorem history_refines_replay_fifo_any_policies (mn mx : Int) (sm : Nat) (hsm :
 
 /-- a fresh buffer has nothing to replay -/
 theorem create_refines_replay (mn mx : Int) (sm : Nat) (hsm : 0 < sm) (c : Cbuf) (hc : create mn mx sm = some c) :
-    Spec.create mn mx = some (absR c).f ∧ (absR c).hist = [] := by
+    Spec.create mn mx = some (absR c).f ∧ (absR c).hist = [] ∧ (absR c).wrapped = false := by
   refine ⟨create_refines mn mx sm c hc, ?_⟩
   have hi := (inv_create hsm hc).1
   unfold create at hc
@@ -257,11 +259,89 @@ theorem counters_agree (mn mx : Int) (sm : Nat) (hsm : 0 < sm) (c : Cbuf)
   · intro h; exact List.eq_nil_of_length_eq_zero (by rw [contents_length]; exact h)
   · intro h; have := contents_length c'; rw [h] at this; exact this.symm
 
+/-- the getters that have no operation of their own -- `cbuf_lines_reused`, `cbuf_is_empty`,
+    `cbuf_free`, `cbuf_opt_get` -- agree with the abstract state in every reachable state -/
+theorem getters_agree (mn mx : Int) (sm : Nat) (hsm : 0 < sm) (c : Cbuf)
+    (hc : create mn mx sm = some c) (ops : List OpR) (pol : Policy := chunkPolicy) [Admissible pol] :
+    let c' := (runMR c ops pol).2
+    linesReused c' = Spec.linesReused (absR c') ∧
+    (isEmpty c' = true ↔ (absR c').f.q = []) ∧
+    free c' = (absR c').f.size - (absR c').f.q.length ∧
+    (Spec.optSet (absR c').f (optGet c')).2 = (absR c').f := by
+  have hi := (runR_refines (inv_create hsm hc).1 ops pol).2
+  generalize (runMR c ops pol).2 = c' at hi
+  refine ⟨linesReused_refines hi, ?_, ?_, ?_⟩
+  · simp only [isEmpty, decide_eq_true_eq, absR_f, abs_q]
+    constructor
+    · intro h; exact List.eq_nil_of_length_eq_zero (by rw [contents_length]; exact h)
+    · intro h; have := contents_length c'; rw [h] at this; exact this.symm
+  · simp [free, contents_length]
+  · simp only [absR_f]
+    unfold optGet Spec.optSet
+    cases hm : c'.mode <;> simp [abs, absMode, hm, Gen.CBUF_NO_DROP, Gen.CBUF_WRAP_ONCE, Gen.CBUF_WRAP_MANY]
+
+/-! ### the whole header -/
+
+/-- EVERY function cbuf.h declares (the list is regenerated from the header of the tree under test
+    on every run) is covered by the model: as an operation of the histories, as a getter proved
+    equal to the abstract value, or as start / end of a history (`Cbuf/Api.lean`).  A function
+    added to the header makes this theorem fail to build. -/
+theorem header_covered : Gen.CBUF_API.all apiCovers = true := by decide
+
+/-- the coverage test is not vacuous: it refuses a name the model does not know, and the header
+    does declare functions -/
+theorem header_coverage_witness : apiCovers "cbuf_shrink_to_fit" = false ∧ Gen.CBUF_API.length ≥ 30 := by
+  decide
+
+/-! ### the per-buffer mutex: concurrent histories are sequential histories -/
+
+/-- the buffer as a data structure whose calls are critical sections of its mutex: every public
+    function is `lock; <the step function the theorems above are about>; unlock` (the discipline is
+    checked on the C code by the harness on every call: exactly one lock and one unlock per call,
+    never nested) -/
+def cbufSys (pol : Policy) : Lin.Sys Cbuf OpR Out where
+  stepFn c op := stepMR c op pol
+  body op := [fun c => (stepMR c op pol).2]
+  body_ok _ _ := rfl
+
+theorem seqRun_eq_runMR (pol : Policy) {τ : Type} (c : Cbuf) (calls : List (τ × OpR)) :
+    (Lin.seqRun (cbufSys pol) c calls).1 = (runMR c (calls.map (·.2)) pol).2 ∧
+    (Lin.seqRun (cbufSys pol) c calls).2.map (·.2.2) = (runMR c (calls.map (·.2)) pol).1 := by
+  induction calls generalizing c with
+  | nil => exact ⟨rfl, rfl⟩
+  | cons p rest ih =>
+    obtain ⟨t, op⟩ := p
+    have := ih (stepMR c op pol).2
+    simp only [Lin.seqRun, cbufSys, List.map_cons, runMR, List.map] at this ⊢
+    exact ⟨this.1, by rw [this.2]⟩
+
+/-- LINEARIZABILITY of the buffer under its mutex: whatever the threads and the schedule, an
+    execution that starts and ends with the mutex free leaves the buffer in the state, and gives
+    every call the answer, of the SEQUENTIAL history of the calls in the order in which they took
+    the mutex -- and that sequential history is accepted by the FIFO specification
+    (`history_refines_replay_fifo`), the buffer being valid at the end.  Program order and real-time
+    order are respected by construction (`Lin.calls_of_thread`, `Lin.calls_append`). -/
+theorem concurrent_history_linearizable {τ : Type} [DecidableEq τ] (mn mx : Int) (sm : Nat) (hsm : 0 < sm)
+    (c c' : Cbuf) (hc : create mn mx sm = some c) (pol : Policy) [Admissible pol]
+    (evs : List (Lin.Ev τ OpR)) (outs : List (τ × OpR × Out))
+    (h : Lin.exec (cbufSys pol) { s := c, owner := none } evs = some ({ s := c', owner := none }, outs)) :
+    let ops := (Lin.calls evs).map (·.2)
+    c' = (runMR c ops pol).2 ∧ outs.map (·.2.2) = (runMR c ops pol).1 ∧
+    acceptSR (absR c) (traceMR c ops pol) = some (absR c') ∧ isValid c' = true := by
+  have hl := Lin.linearizable (cbufSys pol) c c' evs outs h
+  obtain ⟨h1, h2⟩ := seqRun_eq_runMR pol c (Lin.calls evs)
+  rw [hl] at h1 h2
+  simp only at h1 h2
+  have hr := history_refines_replay_fifo mn mx sm hsm c hc ((Lin.calls evs).map (·.2)) pol
+  refine ⟨h1, h2, ?_, ?_⟩
+  · rw [h1]; exact hr.1
+  · rw [h1]; exact hr.2
+
 /-! what the replay side of the specification means -/
 
 /-- rewinding what was just consumed restores the queue and the history -/
 theorem spec_rewind_undoes_consume (r : Spec.RFifo) (n : Nat) (hn : n ≤ r.f.q.length) :
-    let r' : Spec.RFifo := { f := { r.f with q := r.f.q.drop n }, hist := r.hist ++ r.f.q.take n }
+    let r' : Spec.RFifo := { r with f := { r.f with q := r.f.q.drop n }, hist := r.hist ++ r.f.q.take n }
     (Spec.rewind r' n).1 = n ∧ (Spec.rewind r' n).2 = r := by
   simp only [Spec.rewind]
   have h1 : ¬ ((n : Int) < -1) := by omega
